@@ -41,6 +41,9 @@ func (s *Sim) c20Final() {
 		}
 		h := s.peerFileHash(f)
 		if !s.w2m.delivered("src1", f.Name, h) {
+			if s.c20IsExplained("src1/"+f.Name, h) {
+				continue // reported at the pass that removed its partial, under that pass's own oracle id
+			}
 			s.violate("C20", "transfer-lost-after-cleaning", "every byte of %s (version %s) was sent exactly once around the cleaning passes, but the file was never delivered (%d crashes)", f.Name, short(h), len(s.ob.crashes))
 		}
 	}
